@@ -364,6 +364,9 @@ impl<T> NCReadStream<T> {
         crate::verif::emit(format!("\"ev\":\"call\",\"op\":\"nc_pop\",\"m\":{}", lock.id()));
         // TODO: attach tags.
         let ret = lock.lock().unwrap().pop_front().map(|v| (v, Vec::new()));
+        if ret.is_some() {
+            circular_buffer::stream_activity();
+        }
         #[cfg(rustradio_verif)]
         crate::verif::emit(format!("\"ev\":\"ret\",\"op\":\"nc_pop\",\"m\":{},\"some\":{}", lock.id(), ret.is_some()));
         cv.notify_all();
@@ -399,6 +402,7 @@ impl<T> NCWriteStream<T> {
         crate::verif::emit(format!("\"ev\":\"call\",\"op\":\"nc_push\",\"m\":{}", lock.id()));
         // TODO: attach tags.
         lock.lock().unwrap().push_back(val);
+        circular_buffer::stream_activity();
         cv.notify_all();
     }
 }
